@@ -157,9 +157,43 @@ class PoolObjVars:
         return ["obj", self.serial]
 
 
+@api.expose
+class PoolObjSet(set):
+    """a pool object whose class derives from a builtin value type (a tag set with remote methods): registered, it is a Pyro
+    object like any other and arrives as a proxy; not registered, it travels as the value it is - serpent: the default class
+    record (-> ["byvalue", n]); json / msgpack: the list of its elements (-> ["bv:n"]); marshal cannot carry it at all (plans
+    keep marshal away from it).  Identity semantics, so that equality plays no part."""
+
+    def __init__(self, serial, log):
+        set.__init__(self, ["bv:%d" % serial])
+        self.serial = serial
+        self._log = log
+
+    __hash__ = object.__hash__
+
+    def __eq__(self, other):
+        return self is other
+
+    def __ne__(self, other):
+        return self is not other
+
+    def who(self):
+        self._log.append(self.serial)
+        return ["obj", self.serial]
+
+    OWN = "who_set"
+
+    def who_set(self):
+        self._log.append(self.serial)
+        return ["obj", self.serial]
+
+    def __getstate__(self):
+        return {"serial": self.serial}
+
+
 # (the subclasses are not class-exposed: that would publish __len__ / __bool__ as remote methods; who() is inherited exposed)
 SHAPES = {"plain": PoolObj, "len0": PoolObjLen, "bool0": PoolObjBool, "state": PoolObjState, "inst": PoolObjK,
-          "frozen": PoolObjFrozen, "noweak": PoolObjSlots, "eq": PoolObjEq, "vars": PoolObjVars}
+          "frozen": PoolObjFrozen, "noweak": PoolObjSlots, "eq": PoolObjEq, "vars": PoolObjVars, "setlike": PoolObjSet}
 
 
 @api.expose
@@ -260,6 +294,11 @@ SerializerBase.register_dict_to_class(TAG, _from_dict)
 for _c in SHAPES.values():      # serpent's default class record carries the subclass's own name
     SerializerBase.register_dict_to_class(_c.__module__ + "." + _c.__name__, _from_dict)
 SerializerBase.register_class_to_dict(PoolObjSlots, _to_dict, serpent_too=False)
+# serpent would write an unregistered PoolObjSet as a set literal until the first Daemon.register() of one installs Pyro's hook
+# for the type (for the life of the process), whose fall-back is the default class record: install that fall-back now, so
+# that the bytes on the wire do not depend on what earlier runs in this process did
+import serpent as _serpent  # noqa: E402
+_serpent.register_class(PoolObjSet, lambda obj, ser, out, lvl: ser.ser_default_class(obj, out, lvl))
 assert Made.__module__ + "." + Made.__name__ == MADE_TAG
 SerializerBase.register_class_to_dict(Made, _made_to_dict, serpent_too=False)
 SerializerBase.register_dict_to_class(MADE_TAG, _made_from_dict)
